@@ -155,6 +155,24 @@ def specBytes (b : Bytes) (o : Obs) (orc : Oracles) : Bool :=
     | none => true
   sizeOk && routeOk && strictOk && oraclesOk && bothOk && stdOk && framedOk && deliveryOk && tlsImplies
 
+/-- extension types whose bodies crypto/tls (go1.24 `clientHelloMsg.unmarshal`) parses, other than `server_name` -/
+def tlsKnownExts : List Nat := [5, 10, 11, 13, 16, 18, 23, 35, 41, 42, 43, 44, 45, 50, 51, 57, 0xff01, 0xfe0d]
+
+/-- The message of the first record is one on which crypto/tls and `stdServerName 255` must agree in **both**
+directions: record-layer version below 0x1000 (crypto/tls refuses other first records), and no extension whose
+body crypto/tls looks into except `server_name`. `none`: not such a case. -/
+def tlsExactCase (b : Bytes) : Option Bytes :=
+  if (b.getD 1 0).toNat ≥ 0x10 then none else
+  match firstMessage maxRecordLen b with
+  | none => none
+  | some msg =>
+    match frame msg with
+    | none => some msg
+    | some rh =>
+      match rh.extensions with
+      | none => some msg
+      | some es => if es.all (fun e => !tlsKnownExts.contains e.1) then some msg else none
+
 /-- The tie of the Lean model of the oracles to the oracles themselves: `stdRoute` (Lean) and the strict reader
 of the harness (`wire.go`, Go) must agree exactly, and whenever crypto/tls accepts a hello that is complete within
 the first record, `stdServerName 255` (crypto/tls's reading with opaque bodies for the other extensions) accepts it
@@ -166,7 +184,11 @@ def oracleModelAgrees (b : Bytes) (orc : Oracles) : Bool :=
   let tlsSame := !orc.tlsOk || match firstMessage maxRecordLen b with
     | some msg => stdServerName 255 msg == some ((hexDecode orc.tlsName).toOption.getD [])
     | none => true
-  strictSame && tlsSame
+  -- … and in both directions where crypto/tls has nothing else to object to
+  let tlsExact := match tlsExactCase b with
+    | some msg => (stdServerName 255 msg).isSome == orc.tlsOk
+    | none => true
+  strictSame && tlsSame && tlsExact
 
 /-- The functions **translated from the current Go source** (`Generated.C10.XBufSize`, `XUnmarshal`, written by
 `tools/factgen/xlate.go` on every run) evaluated on the same bytes as the implementation: the buffer size of the
@@ -254,6 +276,8 @@ def modelH : Handler := fun inp impl => do
   let tag := if wf then "wf-" ++ (match h.extensions with | none => "noext" | some es => sniPos es) ++
                  (if b.length ≥ 16383 + 5 then ":largest-record" else "")
              else "nonwf-" ++ mtag
+  -- `/tlsx`: a case of the two-way comparison between crypto/tls and the Lean reading of a standard server
+  let tag := if (tlsExactCase b).isSome then tag ++ "/tlsx" else tag
   if isPanicJ impl then
     return ({ model := mj, agree := m.isNone, spec := false, nontrivial := true, tag := "impl-panic:" ++ tag } : Verdict).toJson
   let o ← readObs impl
